@@ -1,6 +1,7 @@
 package main
 
 import (
+	"bytes"
 	"crypto/tls"
 	"fmt"
 	"net"
@@ -26,7 +27,7 @@ func init() {
 		Phases: func(tier string, seed int64) []Phase {
 			return []Phase{{Name: "pipelines", Run: c06Run}}
 		},
-		MinObserved: []string{"requests_numbered", "rendezvous_satisfied", "cross_connection_rendezvous_satisfied", "pipelines_with_starttls_upgrade", "pipelines_with_a_handler_blocked_in_write", "requests_served_through_the_default_route", "pipelines_with_repeated_message_ids", "connections_served_while_another_connections_handler_is_blocked", "fire_and_forget_pipelines", "pipelines_on_a_server_without_panic_recovery", "connections_with_a_handler_outliving_the_read_timeout", "pipelines_over_a_tls_listener", "pipelines_on_a_server_with_a_read_timeout", "extended_requests_under_well_known_names"},
+		MinObserved: []string{"requests_numbered", "rendezvous_satisfied", "cross_connection_rendezvous_satisfied", "pipelines_with_starttls_upgrade", "pipelines_with_a_handler_blocked_in_write", "requests_served_through_the_default_route", "pipelines_with_repeated_message_ids", "connections_served_while_another_connections_handler_is_blocked", "fire_and_forget_pipelines", "pipelines_on_a_server_without_panic_recovery", "connections_with_a_handler_outliving_the_read_timeout", "pipelines_over_a_tls_listener", "pipelines_on_a_server_with_a_read_timeout", "extended_requests_under_well_known_names", "requests_carrying_a_100kb_value"},
 	})
 }
 
@@ -39,7 +40,10 @@ type c06Req struct {
 	// rendezvous: wait until request WaitPos on this connection (or on the partner connection when WaitOther) has entered
 	WaitPos   int
 	WaitOther bool
+	Big       bool // an add or modify request that carries a 100KB value
 }
+
+var c06BigValue = bytes.Repeat([]byte("photo-"), 17000)
 
 type c06Ev struct {
 	Pos, ReqID, ConnID int
@@ -76,8 +80,14 @@ func (q *c06Req) encode() []byte {
 		op = sber.Search{Base: []byte("dc=x"), Scope: 2, Filter: sber.PresentFilter("cn"), Attrs: [][]byte{}}.Node()
 	case "modify":
 		op = sber.ModifyRequest([]byte("cn=u"), nil)
+		if q.Big {
+			op = sber.ModifyRequest([]byte("cn=u"), []sber.Change{{Op: 2, Attr: sber.Attr{Type: []byte("jpegPhoto"), Vals: [][]byte{c06BigValue}}}})
+		}
 	case "add":
 		op = sber.AddRequest([]byte("cn=u"), nil)
+		if q.Big {
+			op = sber.AddRequest([]byte("cn=u"), []sber.Attr{{Type: []byte("jpegPhoto"), Vals: [][]byte{c06BigValue}}})
+		}
 	case "delete":
 		op = sber.DelRequest([]byte("cn=u"))
 	case "ext", "ext-noroute":
@@ -112,6 +122,11 @@ func c06Pipeline(c *Ctx, r *Rand, idx int) {
 			}
 			used[q.ID] = true
 			q.Route = q.Kind != "ext-noroute"
+			// every eighth pipeline (short ones): its add and modify requests carry a 100KB value each
+			if idx%8 == 5 && n <= 40 && (q.Kind == "add" || q.Kind == "modify") {
+				q.Big = true
+				c.Count("requests_carrying_a_100kb_value", 1)
+			}
 			if strings.HasPrefix(q.Kind, "ext") {
 				q.Ext = c06ExtName(ci, p)
 				// now and then an operation everybody knows by name (each at most once per pipeline: the name identifies
